@@ -246,4 +246,10 @@ theorem caches_are :
       [("soupsieve.css_parser", "_cached_css_compile", some 500), ("soupsieve.util", "lower", some 512)] := by
   decide +kernel
 
+/-- **interpreter_setters_empty.** No function of the library changes an interpreter-wide setting (recursion limit, switch
+interval, warnings filters, locale, signal handlers, `os.environ`, `sys.modules`, `sys.path`, the `re` cache, …): such state is
+shared by every thread although it is no object of the library, so the write analysis above cannot see it.  Regenerated from
+the source on every run (`gen_effects.interpreter_setters`); a temporary change that is "restored afterwards" is a change. -/
+theorem interpreter_setters_empty : Gen.Effects.interpreterSetters = [] := by decide +kernel
+
 end SoupVerif.C14
